@@ -1034,8 +1034,12 @@ walk_descents(cholmod_sparse *AtA_F,
 		/* Wait for threads to finish calculations */
 		int done = false;
 		pthread_mutex_lock(&mutex);
-		while (!done) {
-			pthread_cond_wait(&cv, &mutex);
+		while (1) {
+			/*
+			 * Check before sleeping: the workers may all have
+			 * finished (and sent their last wake-up) before this
+			 * thread re-acquired the mutex.
+			 */
 			done = true;
 			for (j = 0; j < n_threads; j++) {
 				if (i*n_threads + j >= n_alpha)
@@ -1043,6 +1047,9 @@ walk_descents(cholmod_sparse *AtA_F,
 				if (descent_trials[j].state != WAIT)
 					done = false;
 			}
+			if (done)
+				break;
+			pthread_cond_wait(&cv, &mutex);
 		}
 		pthread_mutex_unlock(&mutex);
 
